@@ -1,4 +1,4 @@
-"""C16 - vectorisation, blur and bin-to-bp mapping are exact; seeds are the top peaks (S1, four small spaces)."""
+"""C16 - vectorisation, blur and bin-to-bp mapping are exact; seeds are the top peaks (S1 spaces, generator call sequences, S2 seeds)."""
 import itertools
 
 import numpy as np
@@ -13,7 +13,9 @@ from src.correlation.peaks_selector import PeaksSelector  # noqa: E402
 
 RULE = ("(a) every sorted label multiset (size bound) over 0..11 x resolution {1,2,3,5} x start {-4,-1,0,1,3,6} x end "
         "{None,0,2,5,9,11,14}; (b) every 0/1 vector up to a length bound x radius 0..3; (c) resolutions 1..12 and the two defaults x "
-        "bins 0..4 x starts; (d) every list of <= 5 peak heights over {1,2,3} split over <= 3 correlations x count 1..5; "
+        "bins 0..4 x starts; (a') two consecutive positionsToSequence calls on ONE SequenceGenerator: label multisets x resolution {1,2,3} x "
+        "radius {0,1} x every ordered pair of 15 windows; (e) S2: multi-query worlds on 3 references x peaksCount {1,2,3,5}: the seeds "
+        "refined are the best-scoring peaks over all references and strands, best first; (d) every list of <= 5 peak heights over {1,2,3} split over <= 3 correlations x count 1..5; "
         "non-trivial = (a) window cuts a label off / negative start, (b) radius > 0 and vector has a 1, (c) all, (d) ties or count < peaks")
 ASSUMPTIONS = ["integer label coordinates", "createPeaks is driven with synthetic find_peaks property arrays"]
 
@@ -126,6 +128,113 @@ def check_peaks(heights, split, count, acc):
     return found
 
 
+# ------------------------------------------------------------------------------------------------
+# operation sequences on ONE SequenceGenerator (the aligner keeps one generator per engine and calls it for whole maps and for
+# refinement windows of the same map)
+
+SEQ_WINDOWS = [(s, e) for s in (0, -2, 3) for e in (None, 2, 5, 9, 14)]
+
+
+@core.guarded(lambda pos, res, rad, calls, *a: dict(kind='generator', positions=list(pos), resolution=res, radius=rad, calls=[list(c) for c in calls]))
+def check_generator(pos, res, rad, calls, acc):
+    from src.correlation.sequence_generator import SequenceGenerator
+    found = []
+    case = dict(kind='generator', positions=list(pos), resolution=res, radius=rad, calls=[list(c) for c in calls])
+    gen = SequenceGenerator(res, rad)
+    outs = []
+    for k, (start, end) in enumerate(calls):
+        direct = list(blur(list(vectorisePositions(list(pos), res, start, end)), rad))
+        got = list(gen.positionsToSequence(list(pos), start, end))
+        outs.append(tuple(int(x) for x in got))
+        if [int(x) for x in got] != [int(x) for x in direct]:
+            found.append(('generator-call-differs-from-vectorise-then-blur', 'call %d %s: got %s, vectorise+blur gives %s' % (
+                k + 1, (start, end), got, direct), 'positionsToSequence', {'call': min(k + 1, 2)}))
+    if acc is not None:
+        acc.evals += 1
+        acc.transitions += len(calls)
+        acc.state(('g', res, rad) + tuple(outs))
+        if len(calls) > 1 and calls[0] != calls[1]:
+            acc.nontriv(('g', tuple(pos), res, rad, tuple(calls)))
+        for f in found:
+            acc.viol(f[0], case, f[1], f[2], f[3])
+        acc.sample(case)
+    return found
+
+
+class Generator(core.Layer):
+    def __init__(self, name, nlab, optional=False):
+        self.name, self.optional = name, optional
+        self.multisets = [list(c) for n in range(1, nlab + 1) for c in itertools.combinations_with_replacement(range(0, 12, 1), n)]
+        self.chunk = max(1, len(self.multisets) // 40)
+        self.bounds = dict(labels_per_list=[1, nlab], coordinate_range=[0, 11], resolutions=[1, 2, 3], radius=[0, 1], windows=len(SEQ_WINDOWS),
+                           calls_per_generator=2)
+        self.rule = '%d label multisets x 3 resolutions x 2 radii x every ordered pair of %d windows, two calls on one generator' % (
+            len(self.multisets), len(SEQ_WINDOWS))
+
+    def nblocks(self):
+        return (len(self.multisets) + self.chunk - 1) // self.chunk
+
+    def run_block(self, b, acc):
+        for pos in self.multisets[b * self.chunk:(b + 1) * self.chunk]:
+            for res in (1, 2, 3):
+                for rad in (0, 1):
+                    for c1 in SEQ_WINDOWS:
+                        for c2 in SEQ_WINDOWS:
+                            acc.seq += 1
+                            check_generator(pos, res, rad, (c1, c2), acc)
+
+    def replay(self, case):
+        return check_generator(case['positions'], case['resolution'], case['radius'], [tuple(c) for c in case['calls']], None)
+
+
+# ------------------------------------------------------------------------------------------------
+# S2: the seeds that are actually refined are the peaksCount best-scoring peaks over ALL references and strands, best first
+
+def judge_seeds(ctx, mode, extra, obs, acc):
+    from mc.props import c05
+    found = []
+    pc = int(dict(zip(extra[::2], extra[1::2])).get('-p', 3))
+    passes = c05.split_passes(obs.events)
+    first = passes[0] if passes else []
+    cands, seeds = {}, {}
+    for ev in first:
+        if ev[0] == 'cands' and ev[1]:
+            cands.setdefault(ev[1][0]['query'], []).extend(ev[1])
+        elif ev[0] == 'seeds':
+            seeds.setdefault(ev[1], []).extend((p[1], ev[3], ev[4]) for p in ev[5])
+    for qid in ctx.qmaps:
+        cl = sorted(cands.get(qid, []), key=lambda c: c['index'] if c['index'] is not None else 0)
+        sd = sorted(seeds.get(qid, []), reverse=True)
+        if not cl or not sd:
+            continue
+        top = sd[:pc]
+        if len({x[0] for x in sd[:pc + 1]}) != len(sd[:pc + 1]):
+            continue        # exact score ties: any choice / order is accepted
+        want = [(x[1], x[2]) for x in top]
+        got = [(c['reference'], c['reverse']) for c in cl]
+        if sorted(want) != sorted(got):
+            found.append(('refined-seeds-are-not-the-top-scoring-peaks', 'query %s -p %d: refined %s, best-scoring peaks %s (all: %s)' % (
+                qid, pc, got, want, sd[:8]), 'selection', {}))
+        elif want != got and all(c['index'] is not None for c in cl):
+            found.append(('refined-seeds-not-in-descending-score-order', 'query %s -p %d: refined in order %s, by score %s' % (qid, pc, got, want),
+                          'selection', {}))
+        if acc is not None and len(sd) > pc and len({(x[1], x[2]) for x in sd[:pc + 1]}) > 1:
+            acc.nontriv((ctx.key, pc, qid))
+            acc.classes['queries-with-more-peaks-than-peaksCount-on-several-references-or-strands'] += 1
+    return found
+
+
+def seed_layer(tier, seed):
+    from mc import e2e, sink
+    n = 10 if tier == 'quick' else 80
+    refs, pool, sets = e2e.query_sets(n, 'c16')
+    ws = [e2e.set_world(refs, pool, s, nrefs=3, short_ref=i % 3 == 1, ref_ids=(17, 4, 9) if i % 2 else None) for i, s in enumerate(sets)]
+    extras = tuple(('-p', str(p)) for p in (1, 2, 3, 5))
+    return e2e.WorldLayer('S2:seeds', ws, judge_seeds, extras=extras, modes=('all',), extensions=[sink.Candidates, sink.Seeds],
+                          bounds=dict(worlds=len(ws), peaksCount=[1, 2, 3, 5], references=3, queries_per_world=[3, 5]),
+                          rule='%d multi-query worlds on 3 references x 4 peaksCount' % len(ws), cli_every=0)
+
+
 class Space(core.Layer):
     def __init__(self, name, nlab, blen, optional=False):
         self.name, self.optional = name, optional
@@ -193,5 +302,5 @@ class Space(core.Layer):
 
 def layers(tier, seed):
     if tier == 'quick':
-        return [Space('n<=4,len<=8', 4, 8)]
-    return [Space('n<=4,len<=8', 4, 8), Space('n<=6,len<=12', 6, 12, optional=True)]
+        return [Space('n<=4,len<=8', 4, 8), Generator('seq2:n<=2', 2), seed_layer(tier, seed)]
+    return [Space('n<=4,len<=8', 4, 8), Generator('seq2:n<=3', 3), seed_layer(tier, seed), Space('n<=6,len<=12', 6, 12, optional=True)]
